@@ -270,14 +270,18 @@ def run(ctx):
     ctx.cov['explorer_runs'] = [dict(cmd=r[0], **{k: v for k, v in r[2].items() if k != 'x'}) for r in results]
 
     # 4. TLC decides on every distinct history: the property layer (reservation semantics) ...
+    chunk = 3000 if T else 1500
+    k = max(1, -(-len(lines) // chunk))       # spread cheap and expensive (long, 4-fiber) histories evenly over the chunks
+    order = [i for c in range(k) for i in range(c, len(lines), k)]
+    lines, origin = [lines[i] for i in order], [origin[i] for i in order]
     mod = os.path.join(SPEC, 'Trace_PagePool.tla')
     # ... and the atomic pool (plain linearizability; informative only; quick tier: an evenly spaced sample of the histories)
     step = 1 if T else max(1, len(lines) // 2500)
     sidx = list(range(0, len(lines), step))
     subP, subS = Sub(ctx), Sub(ctx)
-    fP = pool.submit(scheck.validate_histories, subP, mod, os.path.join(SPEC, 'Trace_PagePool.cfg'), lines, 'pagepool', chunk=3000)
+    fP = pool.submit(scheck.validate_histories, subP, mod, os.path.join(SPEC, 'Trace_PagePool.cfg'), lines, 'pagepool', chunk=chunk)
     fS = pool.submit(scheck.validate_histories, subS, mod, os.path.join(SPEC, 'Trace_PagePool_strict.cfg'),
-                     [lines[i] for i in sidx], 'pagepool-strict', chunk=3000)
+                     [lines[i] for i in sidx], 'pagepool-strict', chunk=chunk)
     rej = fP.result()
     subP.merge()                               # impl_traces: every history once (the strict pass re-reads the same ones)
     ctx.log('TLC validated %d distinct call/return histories against PagePool (P-layer); rejected: %d' % (len(lines), len(rej)))
